@@ -23,6 +23,16 @@ KINDS = ['sparse', 'sparse', 'dense_canonical', 'dense_binary', 'permuted', 'nda
 def run(ctx):
     rng, q = ctx.rng, ctx.quick
     r = ctx.mc('mc/MC_Algebra.tla', 'mc/MC_Algebra_quick.cfg', 'AlgebraModel (canonical order / names / signs used by the metadata and decoding clauses)')
+    for cfg, what in (('mc/MC_Graph_fixed2.cfg', 'GraphModel, 2-D, every ordered key tuple: Faithful (decode(encode) = denotation) and DragExact'),
+                      ('mc/MC_Graph_fixed3.cfg', 'GraphModel, 3-D layouts (canonical, binary, permuted, sparse)')):
+        r = ctx.mc('mc/MC_Graph.tla', cfg, what)
+        if not r['ok']:
+            ctx.report(f"GraphModel ({what}) violates {r['violated']}", {'kind': 'spec', 'violated': ','.join(r['violated'])}, {'cfg': cfg})
+    r = ctx.mc('mc/MC_Graph.tla', 'mc/MC_Graph_old2.cfg', 'control: the key rule before the repair (keys omitted whenever 2^d blades are stored) must be refuted')
+    ctx.extra['control_counterexample_for_length_only_key_rule'] = bool(r['violated'])
+    if not r['violated']:
+        from tlc import MachineryError
+        raise MachineryError('control run of GraphModel did not find the known counterexample')
     us = [ucfg(sig=[1, 1]), ucfg(2, 0, 1), ucfg(3, 0, 1), ucfg(sig=[1, 1, 1]), ucfg(sig=[0, 1, 1], start=0), ucfg(sig=[1, -1, 0]), ucfg(sig=[1]), ucfg(sig=[1, 1, 1, -1])]
     if not q:
         us += [ucfg(sig=s) for s in ([0, 1], [-1, 1], [1, 1, -1], [0, 0, 1], [1, 1, 1, 1], [0, 1, 1, 1])] + [ucfg(sig=[])]
